@@ -78,3 +78,7 @@ def check(ck):
         # values, as their literals are
         from . import c05
         c05._argument_table(ck, repo)
+        # ... and a variable is let into a position only when its declared type is the position's type (up to nullability): nothing
+        # converts the value afterwards, so a tolerated `Int` variable on an `ID` argument would deliver 5 where the literal delivers "5"
+        from .c06 import _variable_usage_tables
+        _variable_usage_tables(ck, repo)
